@@ -176,8 +176,11 @@ func (s Surface) render(win vaxis.Window, focused Widget) {
 		)
 	}
 
-	// Sort the Children by z-index
-	sort.Slice(s.Children, func(i int, j int) bool {
+	// Sort the Children by z-index. The sort is stable: children of equal
+	// z-index keep the order they were added in, which is the order the
+	// hit test (it reads the same slice before and after this sort) takes
+	// for "painted later"
+	sort.SliceStable(s.Children, func(i int, j int) bool {
 		return s.Children[i].ZIndex < s.Children[j].ZIndex
 	})
 
